@@ -131,3 +131,69 @@ def extra(chk: Check) -> None:
         sub = chk.sub()
         _ctor_copies(sub)
         chk.adopt(sub, None, "R18.6")
+    # ---- round 8 ------------------------------------------------------------------------------
+    if p == "C02":
+        # the readers build every node through its constructor: what a constructor makes of an
+        # argument the reader leaves out (or passes empty) is what is loaded
+        chk.adopt_property("C19", "R02.6", lambda o: ":default(" in o.construct)
+        # every UUID the reader meets is resolved through the table of the IR being loaded, and
+        # the edge / reference it belongs to is kept whatever else the message says
+        chk.adopt_property("C09", "R02.6", lambda o: o.rule == "R09.1" and (
+            "_from_protobuf" in o.construct or "_decode_protobuf" in o.construct))
+    if p == "C03":
+        # an index notification that can fail in the middle of an owner's edit leaves the node
+        # registered in the UUID table but not a member (or the reverse)
+        chk.adopt_property("C12", "R03.8", lambda o: o.construct.endswith(":only-queues"))
+        # membership tests of the owning collections (``v not in self``) are identity tests: a node
+        # class that defines equality makes add/discard act on a look-alike
+        from .c04 import _identity
+        from .ownership import ownership
+        sub = chk.sub()
+        _identity(sub, ownership(repo))
+        chk.adopt(sub, lambda o: o.rule == "R04.6", "R03.8")
+    if p == "C05":
+        # section, module and IR scope reach the blocks through the section's interval index
+        from .lookups import index_key_rule, tree_sites
+        from .ownership import ownership
+        for site in tree_sites(repo):
+            if site.owner.name == "Section":
+                index_key_rule(chk, site, ownership(repo), "R05.9")
+    if p == "C09":
+        # "UUID and Offset entries of AuxData tables name the attached objects": every decode of a
+        # table's bytes goes through the container's lookup
+        chk.adopt_property("C14", "R09.6", lambda o: o.construct.startswith("AuxData.data:"))
+    if p == "C13":
+        # the keys of the section index are the closed extent [address, address + size]: the
+        # last byte of an interval is inside it
+        chk.adopt_property("C05", "R13.4", lambda o: o.construct in (
+            "_address_interval:closed-interval", "util._nodes_on_interval_tree_impl:bias"))
+    if p in ("C13", "C12", "C05", "C06"):
+        # the UUID-table hooks run between the index notification and the store of the owning set:
+        # one that can fail leaves the index naming a non-member
+        from .ownership import ownership
+        rule_ = {"C13": "R13.4", "C12": "R12.6", "C05": "R05.8", "C06": "R06.6"}[p]
+        for _prop, rule, construct, ok, loc, msg, facts in ownership(repo).obs:
+            if rule == "R03.1" and ":param-use(" in construct:
+                chk.ob(rule_, construct, ok, loc, msg, facts)
+    if p == "C14":
+        # "never silently lost": the writer emits every table of the container, the reader reads
+        # every entry of the map
+        from .c01 import _auxdata
+        sub = chk.sub()
+        _auxdata(sub, repo)
+        chk.adopt(sub, lambda o: o.construct.endswith(":whole-map"), "R14.7")
+    if p == "C09":
+        # "... or load fails with the documented error": the message of that error is built with a
+        # literal format string
+        chk.adopt_property("C17", "R09.6", lambda o: ":literal-format(" in o.construct)
+    if p in ("C19", "C02"):
+        # "the interval can always be saved and loaded back" / save-then-load is the identity:
+        # the decoders turn away nothing the API accepts
+        from .loader import rejections_mirror_api
+        rejections_mirror_api(chk, "R19.6" if p == "C19" else "R02.6",
+                              {"byteinterval", "block"} if p == "C19" else None)
+    if p == "C04":
+        # "nodes not named in an operation are unaffected by it": decoded AuxData values are not
+        # shared between the tables of different nodes through a result cache
+        from .purity import no_result_caches
+        no_result_caches(chk, "R04.7")
